@@ -74,6 +74,43 @@ def _domain(fn: FuncInfo, it: ast.AST) -> str:
     return 'unknown:' + s
 
 
+def _canon_bkl(fn: FuncInfo) -> ast.AST:
+    """copy of the function in which the locals of the B_kl computation carry canonical names, whatever the code calls them: the local
+    bound from the `..first_part..` call is `first_part`, from the `..second_part..` call `second_part`, the per-stream container that is
+    returned `Bkl_all_l`, the loop variable of the stream loop `l`"""
+    import copy
+    node = copy.deepcopy(fn.node)
+    ren = {}
+    for n in walk_no_nested(node):
+        if isinstance(n, ast.Assign) and len(n.targets) == 1 and isinstance(n.targets[0], ast.Name) and isinstance(n.value, ast.Call) \
+                and isinstance(n.value.func, ast.Attribute):
+            if 'first_part' in n.value.func.attr:
+                ren[n.targets[0].id] = 'first_part'
+            elif 'second_part' in n.value.func.attr:
+                ren[n.targets[0].id] = 'second_part'
+    rets = [n.value.id for n in walk_no_nested(node) if isinstance(n, ast.Return) and isinstance(n.value, ast.Name)]
+    if len(set(rets)) == 1:
+        ren[rets[0]] = 'Bkl_all_l'
+    loops = [n for n in walk_no_nested(node) if isinstance(n, ast.For) and isinstance(n.target, ast.Name)]
+    if len(loops) == 1:
+        ren[loops[0].target.id] = 'l'
+    for n in ast.walk(node):
+        if isinstance(n, ast.Name) and n.id in ren:
+            n.id = ren[n.id]
+    return node
+
+
+
+def _origin_of(fn: FuncInfo, name: str) -> str:
+    """text of what a local was bound from (its own name included): `B = self._calc_Bkl_cov_matrix_all_l(k)` -> mentions Bkl"""
+    out = name
+    for n in walk_no_nested(fn.node):
+        if isinstance(n, ast.Assign) and any(isinstance(t, ast.Name) and t.id == name for t in n.targets):
+            out += ' ' + norm(n.value)
+    return out
+
+
+
 def check(ctx: Ctx) -> None:
     M = ctx.model
     ctx.assume('noise variance, pe and the powers P are validated non-negative (setters assert it); a covariance passed '
@@ -212,7 +249,8 @@ def _check_sums(ctx: Ctx) -> None:
                         (IA, 'IASolverBaseClass._calc_Bkl_cov_matrix_all_l', False)):
         fn = M.func(path, q)
         ctx.instance('C11.b', q)
-        st = [n for n in ast.walk(fn.node) if isinstance(n, ast.Assign) and isinstance(n.targets[0], ast.Subscript)
+        cnode = _canon_bkl(fn)
+        st = [n for n in ast.walk(cnode) if isinstance(n, ast.Assign) and isinstance(n.targets[0], ast.Subscript)
               and norm(n.targets[0].value) == 'Bkl_all_l']
         ok = False
         detail = {}
@@ -225,8 +263,9 @@ def _check_sums(ctx: Ctx) -> None:
             s = norm(e).replace(' ', '')
             ok = s.startswith('first_part-second_part') and norm(st[0].targets[0].slice) == 'l'
             detail = {'store': norm(st[0])[:100]}
-            sp = [c for c in ast.walk(fn.node) if isinstance(c, ast.Call) and isinstance(c.func, ast.Attribute) and 'second_part' in c.func.attr]
-            ok = ok and len(sp) == 1 and [norm(a) for a in sp[0].args][-2:] == ['k', 'l']
+            sp = [c for c in ast.walk(cnode) if isinstance(c, ast.Call) and isinstance(c.func, ast.Attribute) and 'second_part' in c.func.attr]
+            upar = [p_ for p_ in fn.params if p_ not in ('self', 'cls')][-1:] or ['k']
+            ok = ok and len(sp) == 1 and [norm(a) for a in sp[0].args][-2:] == [upar[0] if upar[0] in [norm(a) for a in sp[0].args] else 'k', 'l']
         ctx.obligation('C11.b', q, ok, detail)
         if not ok:
             ctx.violation('C11.b', q, 'B_kl is not stored as first_part - second_part(k, l) at index l (%s)' % detail, fn.path, fn.lineno,
@@ -239,12 +278,30 @@ def _check_sums(ctx: Ctx) -> None:
         fn = M.func(path, q)
         ctx.instance('C11.b', q)
         calls = [c for c in ast.walk(fn.node) if isinstance(c, ast.Call) and isinstance(c.func, ast.Attribute) and c.func.attr == acc]
-        ok = bool(calls) and all([norm(a) for a in c.args] == ['k', 'k'] for c in calls)
-        cols = [norm(n.slice).replace(' ', '').strip('()') for n in ast.walk(fn.node) if isinstance(n, ast.Subscript) and isinstance(n.slice, ast.Tuple)
-                and any(isinstance(e, ast.Slice) and e.lower is not None for e in n.slice.elts)]
-        ok = ok and bool(cols) and all(c in (':,l:l+1', 'l:l+1,:') for c in cols)
+        # the direct channel: both user arguments are the SAME name (whatever it is called)
+        ok = bool(calls) and all(len(c.args) >= 2 and isinstance(c.args[-2], ast.Name) and isinstance(c.args[-1], ast.Name)
+                                 and c.args[-2].id == c.args[-1].id for c in calls)
+        # one-stream slices: lower bound a name, upper - lower == 1 as terms (l:l+1, l:1+l ...), one stream variable for all of them
+        from .. import terms as T_
+        cols, svars = [], set()
+        for n in ast.walk(fn.node):
+            if isinstance(n, ast.Subscript) and isinstance(n.slice, ast.Tuple) and any(isinstance(e, ast.Slice) and e.lower is not None for e in n.slice.elts):
+                cols.append(norm(n.slice).replace(' ', '').strip('()'))
+                for e in n.slice.elts:
+                    if isinstance(e, ast.Slice) and e.lower is not None:
+                        try:
+                            one = e.upper is not None and e.step is None and isinstance(e.lower, ast.Name) and \
+                                (T_.from_ast(e.upper, T_.Env(M, fn)) - T_.from_ast(e.lower, T_.Env(M, fn))) == T_.Term.const(1)
+                        except T_.Unknown:
+                            one = False
+                        svars.add(e.lower.id if one else '?')
+                    elif not (isinstance(e, ast.Slice) and e.lower is None and e.upper is None):
+                        svars.add('?')
+        ok = ok and bool(cols) and len(svars) == 1 and '?' not in svars
         if fn.name == '_calc_SINR_k':
-            ok = ok and any(norm(n).replace(' ', '') == 'Bkl_all_l[l]' for n in ast.walk(fn.node) if isinstance(n, ast.Subscript))
+            sv_ = next(iter(svars)) if len(svars) == 1 else '?'
+            ok = ok and any(isinstance(n, ast.Subscript) and isinstance(n.slice, ast.Name) and n.slice.id == sv_ and isinstance(n.value, ast.Name)
+                            and 'Bkl' in _origin_of(fn, n.value.id) for n in ast.walk(fn.node))
         ctx.obligation('C11.b', q, ok, {'direct_channel_calls': [norm(c) for c in calls], 'stream_slices': cols})
         if not ok:
             ctx.violation('C11.b', q, 'desired-signal term does not use the direct channel (k, k) with one stream index l for precoder '
@@ -531,7 +588,7 @@ def _check_kinds(ctx: Ctx) -> None:
                       'scalar type (a Python int, numpy.float32, ...) is added to EVERY entry as if it were a covariance matrix'
                       % [norm(c_)[:50] for c_ in disp], fp.path, disp[0].lineno, operand='scalar-dispatch')
     al = M.func(IA, 'IASolverBaseClass._calc_Bkl_cov_matrix_all_l')
-    st = [n for n in ast.walk(al.node) if isinstance(n, ast.Assign) and isinstance(n.targets[0], ast.Subscript) and norm(n.targets[0].value) == 'Bkl_all_l']
+    st = [n for n in ast.walk(_canon_bkl(al)) if isinstance(n, ast.Assign) and isinstance(n.targets[0], ast.Subscript) and norm(n.targets[0].value) == 'Bkl_all_l']
     ctx.instance('C11.c', al.qualname + ':noise-once')
     from ..astutil import expander
     if len(st) != 1:
@@ -575,12 +632,31 @@ def _check_kinds(ctx: Ctx) -> None:
         if ok:
             inner = vals_[0].args[0]
             d = loc.get(norm(inner), [inner])[0] if isinstance(inner, ast.Name) else inner
-            ok = isinstance(d, ast.BinOp) and isinstance(d.op, ast.Div) and 'numerator' in norm(d.left) and 'denominator' in norm(d.right)
-            num = loc.get('numerator', [None])[0]
-            den = loc.get('denominator', [None])[0]
+            ok = isinstance(d, ast.BinOp) and isinstance(d.op, ast.Div)
+            # numerator and denominator are whatever the quotient divides (locals are looked up, their names do not matter)
+            def _scalar_of(e_):
+                # x.item() / float(x) / x[0, 0] only pick the one element of a 1 x 1 product
+                while True:
+                    if isinstance(e_, ast.Call) and isinstance(e_.func, ast.Attribute) and e_.func.attr == 'item' and not e_.args:
+                        e_ = e_.func.value
+                    elif isinstance(e_, ast.Call) and norm(e_.func) in ('float', 'complex', 'np.squeeze', 'np.real') and len(e_.args) == 1:
+                        e_ = e_.args[0]
+                    else:
+                        return e_
+            dl_, dr_ = (_scalar_of(d.left), _scalar_of(d.right)) if ok else (None, None)
+            num = (loc.get(dl_.id, [None])[0] if isinstance(dl_, ast.Name) else dl_) if ok else None
+            den = (loc.get(dr_.id, [None])[0] if isinstance(dr_, ast.Name) else dr_) if ok else None
             k = Kinds(fn)
             ok = ok and num is not None and k.is_gram(num)
-            ok = ok and den is not None and 'Bkl_all_l[l]' in norm(den) and norm(den).count('Ukl') == 2
+            if ok and den is not None:
+                # u^H B[l] u: one subscript by a plain name of a local that comes from the B_kl computation, the same filter name twice
+                bsub = [x for x in ast.walk(den) if isinstance(x, ast.Subscript) and isinstance(x.slice, ast.Name) and isinstance(x.value, ast.Name)
+                        and 'Bkl' in _origin_of(fn, x.value.id)]
+                names_ = [x.id for x in ast.walk(den) if isinstance(x, ast.Name) and not any(x is b.value or x is b.slice for b in bsub)
+                          and x.id not in ('np', 'numpy')]
+                ok = len(bsub) == 1 and len(names_) == 2          # the filter on both sides of B_kl[l]
+            else:
+                ok = False
         ctx.obligation('C11.c', q + ':abs', ok, {'per_stream_value': norm(vals_[0])[:80] if vals_ else None})
         if not ok:
             ctx.violation('C11.c', q, 'per-stream SINR is not stored as abs(|u^H H v|^2 / (u^H B u))', fn.path, fn.lineno, operand='abs')
